@@ -386,6 +386,22 @@ struct CallCtx
     Trace<DIM> *trace = nullptr; // record when non-null
     GradFault fault;
     int nseg = 0;
+    // injected cancellation: the abort_call-th call (0-based) of functor abort_functor (1 time, 2 waypoint, 3 running) throws
+    int abort_functor = 0;
+    long abort_call = 0;
+    long calls_seen = 0;
+    bool aborted = false;
+    void maybe_abort(int functor)
+    {
+        if (abort_functor != functor) return;
+        bool fire;
+        {
+            NoRace g;
+            fire = (calls_seen++ == abort_call);
+            if (fire) aborted = true;
+        }
+        if (fire) throw InjectedAbort();
+    }
 };
 
 template <int DIM>
@@ -395,6 +411,7 @@ struct SimTimeCost
     double operator()(const std::vector<double> &Ts, Eigen::VectorXd &grad) const
     {
         cost_yield("time_cost");
+        cc->maybe_abort(1);
         const CostProgram<DIM> &P = *cc->prog;
         double sum = 0.0, cost = 0.0;
         for (size_t i = 0; i < Ts.size(); ++i) sum += Ts[i];
@@ -420,6 +437,7 @@ struct SimWaypointCost
     double operator()(const W &q, G &grad) const
     {
         cost_yield("waypoint_cost");
+        cc->maybe_abort(2);
         const CostProgram<DIM> &P = *cc->prog;
         const int n = (int)q.rows();
         double cost = 0.0;
@@ -454,6 +472,7 @@ struct SimRunningCost
                       Vec &gp, Vec &gv, Vec &ga, Vec &gj, Vec &gs, double &gt) const
     {
         cost_yield("running_cost");
+        cc->maybe_abort(3);
         const CostProgram<DIM> &P = *cc->prog;
         const double m = (i >= 0 && i < (int)P.segw.size()) ? P.segw[i] : 1.0;
         Vec dp = p - P.p0;
@@ -474,6 +493,7 @@ struct SimRunningCost
             gt = P.A * P.omega * cs * ep - P.B * P.omega * sn;
         }
         c *= m; gp *= m; gv *= m; ga *= m; gj *= m; gs *= m; gt *= m;
+        if (RunCtx::dump_values()) std::fprintf(stderr, "RC i=%d t=%a tg=%a c=%a p0=%a v0=%a s0=%a gt=%a\n", i, t, tg, c, p(0), v(0), s(0), gt);
         if (cc->fault.functor == 3)
         {
             const int comp = cc->fault.comp % DIM;
